@@ -290,6 +290,61 @@ fn style_cases() -> Vec<(u8, u32)> {
     v
 }
 
+/// Stage "many": a growing registry. 70 registrations (reference and function descriptors for
+/// names n00..n34, alternating kinds) made one after the other in one fresh process; after
+/// each one every name is described both as a reference and as a call: exactly the names
+/// registered so far use their marker, all others the default. Then every entry is replaced
+/// by a second marker, checked the same way.
+fn run_many(out: &mut WorkerOut) {
+    const N: usize = 35;
+    let name = |i: usize| format!("n{:02}", i);
+    // state: per (kind, i) the generation registered (0 = none)
+    let mut refs = vec![0u8; N];
+    let mut funs = vec![0u8; N];
+    let mut check = |refs: &[u8], funs: &[u8], step: &str, out: &mut WorkerOut| {
+        for i in 0..N {
+            for (text, want) in [
+                (name(i), if refs[i] > 0 { format!("<R{}:{}>", refs[i], name(i)) } else { name(i) }),
+                (format!("{}(1)", name(i)), if funs[i] > 0 { format!("<F{}:{}|1>", funs[i], name(i)) } else { format!("{}(1)", name(i)) }),
+            ] {
+                out.evals += 1;
+                let got = guarded(|| parse_expression(&text).map(|t| t.describe()).map_err(|e| format!("{:?}", e)));
+                match got {
+                    Res::Ok(g) if g == want => {
+                        out.count("validated", 1);
+                        out.outcomes.insert(if want.contains('<') { "marker-used".into() } else { "default-used".into() });
+                    }
+                    other => {
+                        let total = refs.iter().chain(funs.iter()).filter(|g| **g > 0).count();
+                        let class = if total >= 16 { ">=16" } else { "<16" };
+                        out.fail(format!("describe:many-registrations:{}:entries{}", if text.contains('(') { "function" } else { "reference" }, class), format!("many|{} then describe {:?}", step, text), format!("expected {:?} got {:?} with {} descriptors registered", want, other, total));
+                        return;
+                    }
+                }
+            }
+        }
+    };
+    check(&refs, &funs, "nothing registered", out);
+    for gen in [1u8, 2] {
+        for k in 0..2 * N {
+            let i = k / 2;
+            let n = name(i);
+            let mut m = DescriptorManager::new();
+            if k % 2 == 0 {
+                m.set_reference_descriptor(n.clone(), Arc::new(move |x| format!("<R{}:{}>", gen, x)));
+                refs[i] = gen;
+            } else {
+                m.set_function_descriptor(n.clone(), Arc::new(move |x, args| format!("<F{}:{}|{}>", gen, x, args.join("|"))));
+                funs[i] = gen;
+            }
+            check(&refs, &funs, &format!("registration {} of round {} ({} {})", k + 1, gen, if k % 2 == 0 { "reference" } else { "function" }, n), out);
+            out.count("transitions", 1);
+        }
+    }
+    out.count("states", 4 * N as u64);
+    out.nontrivial.insert(hash64("many"));
+}
+
 fn configs(_tier: Tier) -> Vec<u32> {
     (0..(1u32 << REGS.len())).collect()
 }
@@ -361,6 +416,7 @@ impl Prop for C18 {
                 Stage { name: "schedules".into(), len: super::c13::extra_workloads().len() as u64, chunk: 1, timeout: Duration::from_secs(900), what: "describe() racing set_*_descriptor under the controlled scheduler (all schedules with <= 2 preemptions; results must equal a sequential order; the descriptor registered last must be used afterwards)".into() },
                 Stage { name: "reregister".into(), len: REGS.len() as u64, chunk: 1, timeout: Duration::from_secs(120), what: "each (kind, name) registered twice with different descriptors, no clear in between: the later one must be used (fresh process each)".into() },
                 Stage { name: "styles".into(), len: style_cases().len() as u64, chunk: 8, timeout: Duration::from_secs(600), what: "marker descriptors that return the empty string, or text made of the separators the default renderings use (',' ';' ':'): every configuration of <= 2 registrations and the full one".into() },
+                Stage { name: "many".into(), len: 1, chunk: 1, timeout: Duration::from_secs(300), what: "a registry growing to 70 entries (35 names x reference / function descriptors) one registration at a time, then every entry replaced; after every step each name is described as a reference and as a call (fresh process)".into() },
                 Stage { name: "fresh".into(), len: (REGS.len() + 2) as u64, chunk: 1, timeout: Duration::from_secs(120), what: "the empty, every singleton and the full configuration, each in a fresh process without the clear hook".into() },
             ],
             rule: format!(
@@ -402,7 +458,12 @@ impl Prop for C18 {
             }
             return;
         }
-        let stage = if stage == 4 { 2 } else if stage >= 2 { stage - 1 } else { stage };
+        if stage == 4 {
+            out.at(0);
+            run_many(out);
+            return;
+        }
+        let stage = if stage == 5 { 2 } else if stage >= 2 { stage - 1 } else { stage };
         if stage == 1 {
             for i in a..b {
                 out.at(i);
@@ -453,6 +514,8 @@ impl Prop for C18 {
         } else if stage == 3 {
             let (style, cfg) = style_cases()[i as usize];
             format!("style={} config={:#06x}", style, cfg)
+        } else if stage == 4 {
+            "70 registrations one after the other".to_string()
         } else {
             format!("fresh {}", i)
         }
